@@ -90,7 +90,7 @@ FRAME_QUICK = [
     ("c19", "root_subset0_100"),
 ]
 FRAME_THOROUGH = FRAME_QUICK + [
-    ("c02", "area_authentication"),
+    ("c02", "area_authentication_blocks1"),
     ("c02", "area_manifest_b"),
     ("c02", "area_common_members0"),
     ("c02", "area_envelope_a_severed1"),
